@@ -4,6 +4,7 @@ import WD.Spec.ObserverSpec
 import WD.Proofs.Observer.Inv1
 import WD.Proofs.Observer.LStep
 import WD.Proofs.Observer.CStep
+import WD.Proofs.Observer.OStep
 namespace WD.ProofsObs
 open WD WD.Obs
 
@@ -90,5 +91,12 @@ theorem complete_partial (hok : runOk (init clients cbs emit) sched = true)
     (hh : (run (init clients cbs emit) sched).hist = p ++ .dispatch u w hs :: q ++ .dispatchEnd u :: r)
     (h : Hid) (hm : h ∈ hs) : (∃ v, Obs.call h w v u ∈ q) ∨ Obs.skip h u ∈ q :=
   complete_of_good (cx_reach clients cbs emit sched hok).good p q r u w hs hh h hm
+
+/-- `oneD`: at most one thread of kind `dispatcher` exists in the final state (threads are never removed,
+    so this says that `start` spawned a dispatcher at most once during the run) -/
+theorem order_at_most_once_partial (hok : runOk (init clients cbs emit) sched = true)
+    (hone : oneD (run (init clients cbs emit) sched)) (h : Hid) :
+    (callUids h (run (init clients cbs emit) sched).hist).Pairwise (· < ·) :=
+  goodO_call_pairwise (oc_reach clients cbs emit sched hok hone).good h
 
 end WD.ProofsObs
